@@ -323,7 +323,12 @@ static void checkCase(verif::Run& run, const Variant& v, const std::vector<LD>& 
         for (int i = 0; i < 3; ++i) nrm[i] /= nn;
         crossv(nrm, mz, c); LD sinang = sqrtl(c[0] * c[0] + c[1] * c[1] + c[2] * c[2]), dotp = nrm[0] * mz[0] + nrm[1] * mz[1] + nrm[2] * mz[2];
         const bool sphere = v.radii[0] == v.radii[1] && v.radii[1] == v.radii[2];
-        run.residual(std::string("Ellipsoid-Mz-along-surface-normal/") + (sphere ? "sphere" : "general-radii"), (double)(dotp > 0 ? sinang : 2), TOL, where, rp);
+        // The public header promises only "coordinated rotation and translation along the surface of an ellipsoid";
+        // that Mz is the surface normal is stated in an internal source comment only, so for general radii the
+        // relation is counted as an observation (it does NOT hold: Mz deviates by up to 30 degrees) and asserted
+        // only for a sphere, where normal and position direction coincide by the documented definition.
+        if (sphere) run.residual("Ellipsoid-Mz-along-surface-normal/sphere", (double)(dotp > 0 ? sinang : 2), TOL, where, rp);
+        else run.count((dotp > 0 && sinang <= TOL) ? "unspecified:Ellipsoid-Mz-is-surface-normal/general-radii:holds" : "unspecified:Ellipsoid-Mz-is-surface-normal/general-radii:does-not-hold");
     }
     run.outcome(verif::hashMix(verif::hashStr(vkey), verif::hashMix(verif::hashPod((float)Xlib.R.a[0][0]), verif::hashPod((float)(Xlib.p[0] + 2 * Xlib.p[1] + 3 * Xlib.p[2] + Xlib.R.a[1][2])))));
 
